@@ -100,10 +100,10 @@ pub open spec fn lists_pres(a: &AccessControlModify, x: Attribute) -> bool { exi
 pub open spec fn lists_rem(a: &AccessControlModify, x: Attribute) -> bool { exists|j: int| 0 <= j < a.remattrs@.len() && #[trigger] a.remattrs@[j] == x }
 pub open spec fn lists_pres_cls(a: &AccessControlModify, c: String) -> bool { exists|j: int| 0 <= j < a.pres_classes@.len() && #[trigger] a.pres_classes@[j] == c }
 pub open spec fn lists_rem_cls(a: &AccessControlModify, c: String) -> bool { exists|j: int| 0 <= j < a.rem_classes@.len() && #[trigger] a.rem_classes@[j] == c }
-pub open spec fn granted_pres(acps: &[AccessControlModifyResolved], i: &Identity, e: &EntrySealedCommitted, x: Attribute) -> bool { exists|k: int| 0 <= k < acps@.len() && modify_acp_applies(#[trigger] &acps@[k], i, e) && lists_pres(acps@[k].acp, x) }
-pub open spec fn granted_rem(acps: &[AccessControlModifyResolved], i: &Identity, e: &EntrySealedCommitted, x: Attribute) -> bool { exists|k: int| 0 <= k < acps@.len() && modify_acp_applies(#[trigger] &acps@[k], i, e) && lists_rem(acps@[k].acp, x) }
-pub open spec fn granted_pres_cls(acps: &[AccessControlModifyResolved], i: &Identity, e: &EntrySealedCommitted, c: String) -> bool { exists|k: int| 0 <= k < acps@.len() && modify_acp_applies(#[trigger] &acps@[k], i, e) && lists_pres_cls(acps@[k].acp, c) }
-pub open spec fn granted_rem_cls(acps: &[AccessControlModifyResolved], i: &Identity, e: &EntrySealedCommitted, c: String) -> bool { exists|k: int| 0 <= k < acps@.len() && modify_acp_applies(#[trigger] &acps@[k], i, e) && lists_rem_cls(acps@[k].acp, c) }
+pub open spec fn granted_pres(acps: Seq<AccessControlModifyResolved>, i: &Identity, e: &EntrySealedCommitted, x: Attribute) -> bool { exists|k: int| 0 <= k < acps.len() && modify_acp_applies(#[trigger] &acps[k], i, e) && lists_pres(acps[k].acp, x) }
+pub open spec fn granted_rem(acps: Seq<AccessControlModifyResolved>, i: &Identity, e: &EntrySealedCommitted, x: Attribute) -> bool { exists|k: int| 0 <= k < acps.len() && modify_acp_applies(#[trigger] &acps[k], i, e) && lists_rem(acps[k].acp, x) }
+pub open spec fn granted_pres_cls(acps: Seq<AccessControlModifyResolved>, i: &Identity, e: &EntrySealedCommitted, c: String) -> bool { exists|k: int| 0 <= k < acps.len() && modify_acp_applies(#[trigger] &acps[k], i, e) && lists_pres_cls(acps[k].acp, c) }
+pub open spec fn granted_rem_cls(acps: Seq<AccessControlModifyResolved>, i: &Identity, e: &EntrySealedCommitted, c: String) -> bool { exists|k: int| 0 <= k < acps.len() && modify_acp_applies(#[trigger] &acps[k], i, e) && lists_rem_cls(acps[k].acp, c) }
 #[verifier::external_body]
 pub fn apply_modify_access<'a>(ident: &Identity, related_acp: &'a [AccessControlModifyResolved], sync_agreements: &HashMap<Uuid, BTreeSet<Attribute>>, entry: &Arc<EntrySealedCommitted>) -> (r: ModifyResult<'a>)
     ensures
@@ -111,10 +111,10 @@ pub fn apply_modify_access<'a>(ident: &Identity, related_acp: &'a [AccessControl
         is_user(ident) && read_only(ident) ==> r is Deny,
         is_user(ident) ==> !(r is Grant),
         is_user(ident) ==> (r matches ModifyResult::Allow { pres, rem, pres_cls, rem_cls } ==>
-            (forall|x: Attribute| #[trigger] pres@.contains(x) ==> granted_pres(related_acp, ident, &entry.v, x))
-            && (forall|x: Attribute| #[trigger] rem@.contains(x) ==> granted_rem(related_acp, ident, &entry.v, x))
-            && (forall|c: &str| #[trigger] pres_cls@.contains(c) ==> granted_pres_cls(related_acp, ident, &entry.v, c.as_key()))
-            && (forall|c: &str| #[trigger] rem_cls@.contains(c) ==> granted_rem_cls(related_acp, ident, &entry.v, c.as_key()))),
+            (forall|x: Attribute| #[trigger] pres@.contains(x) ==> granted_pres(related_acp@, ident, &entry.v, x))
+            && (forall|x: Attribute| #[trigger] rem@.contains(x) ==> granted_rem(related_acp@, ident, &entry.v, x))
+            && (forall|c: &str| #[trigger] pres_cls@.contains(c) ==> granted_pres_cls(related_acp@, ident, &entry.v, c.as_key()))
+            && (forall|c: &str| #[trigger] rem_cls@.contains(c) ==> granted_rem_cls(related_acp@, ident, &entry.v, c.as_key()))),
         r matches ModifyResult::Allow { pres, rem, pres_cls, rem_cls } ==> (forall|c: &str| #[trigger] pres_cls@.contains(c) ==> !protected_mod_pres_entry_classes().contains(c.as_key()))
             && (forall|c: &str| #[trigger] rem_cls@.contains(c) ==> !protected_mod_rem_entry_classes().contains(c.as_key())),
 { unimplemented!() }
@@ -139,7 +139,7 @@ pub open spec fn removes_class(m: Modify, e: &EntrySealedCommitted, n: String) -
 }
 // the statement: a user's modify succeeds only if everything it adds or removes is granted by a profile matching that user and entry,
 // it never purges the class attribute, and never adds / removes a protected class
-pub open spec fn modify_fully_granted(acps: &[AccessControlModifyResolved], i: &Identity, e: &EntrySealedCommitted, ml: Seq<Modify>) -> bool {
+pub open spec fn modify_fully_granted(acps: Seq<AccessControlModifyResolved>, i: &Identity, e: &EntrySealedCommitted, ml: Seq<Modify>) -> bool {
     forall|k: int| 0 <= k < ml.len() ==> {
         let m = #[trigger] ml[k];
         &&& !(m matches Modify::Purged(a) && a == Attribute::Class)
@@ -149,10 +149,79 @@ pub open spec fn modify_fully_granted(acps: &[AccessControlModifyResolved], i: &
         &&& (forall|n: String| removes_class(m, e, n) ==> granted_rem_cls(acps, i, e, n) && !protected_mod_rem_entry_classes().contains(n))
     }
 }
-pub struct AcpTxn { pub sync: HashMap<Uuid, BTreeSet<Attribute>> }
-impl AcpTxn {
+//@include shims/access_resolve.rs
+//@include shims/iter_all.rs
+//@include shims/kvx_btreemap.rs
+// ---- the drivers: modify_related_acp / modify_allow_operation / batch_modify_allow_operation (access/mod.rs) ----
+pub struct ModifyEvent { pub ident: Identity, pub modlist: ModifyList<ModifyValid> }
+pub struct BatchModifyEvent { pub ident: Identity, pub modset: BTreeMap<Uuid, ModifyList<ModifyValid>> }
+// statement level: "granted by an access control profile matching that user and that entry", over the profile state itself
+pub open spec fn entry_manager_matches(i: &Identity, e: &EntrySealedCommitted) -> bool {
+    e.refers(Attribute::EntryManagedBy) matches Some(m) && ((i.memberof() matches Some(g) && !g.disjoint(m)) || m.contains(i.uuid()))
+}
+pub open spec fn modify_profile_matches(acp: &AccessControlProfile, ident: &Identity, e: &EntrySealedCommitted) -> bool {
+    &&& (receiver_matches_user(&acp.receiver, ident) || (acp.receiver is EntryManager && entry_manager_matches(ident, e)))
+    &&& (acp.target matches AccessControlTarget::Scope(f) && e.matches_filter(&resolved_filter(f, ident)))
+}
+pub open spec fn sgranted_pres(st: Seq<AccessControlModify>, i: &Identity, e: &EntrySealedCommitted, x: Attribute) -> bool { exists|j: int| 0 <= j < st.len() && modify_profile_matches(&(#[trigger] st[j]).acp, i, e) && lists_pres(&st[j], x) }
+pub open spec fn sgranted_rem(st: Seq<AccessControlModify>, i: &Identity, e: &EntrySealedCommitted, x: Attribute) -> bool { exists|j: int| 0 <= j < st.len() && modify_profile_matches(&(#[trigger] st[j]).acp, i, e) && lists_rem(&st[j], x) }
+pub open spec fn sgranted_pres_cls(st: Seq<AccessControlModify>, i: &Identity, e: &EntrySealedCommitted, c: String) -> bool { exists|j: int| 0 <= j < st.len() && modify_profile_matches(&(#[trigger] st[j]).acp, i, e) && lists_pres_cls(&st[j], c) }
+pub open spec fn sgranted_rem_cls(st: Seq<AccessControlModify>, i: &Identity, e: &EntrySealedCommitted, c: String) -> bool { exists|j: int| 0 <= j < st.len() && modify_profile_matches(&(#[trigger] st[j]).acp, i, e) && lists_rem_cls(&st[j], c) }
+pub open spec fn modify_stmt_granted(st: Seq<AccessControlModify>, i: &Identity, e: &EntrySealedCommitted, ml: Seq<Modify>) -> bool {
+    forall|k: int| 0 <= k < ml.len() ==> {
+        let m = #[trigger] ml[k];
+        &&& !(m matches Modify::Purged(a) && a == Attribute::Class)
+        &&& (adds_attr(m) matches Some(a) ==> sgranted_pres(st, i, e, a))
+        &&& (removes_attr(m) matches Some(a) ==> sgranted_rem(st, i, e, a))
+        &&& (forall|n: String| adds_class(m, e, n) ==> sgranted_pres_cls(st, i, e, n) && !protected_mod_pres_entry_classes().contains(n))
+        &&& (forall|n: String| removes_class(m, e, n) ==> sgranted_rem_cls(st, i, e, n) && !protected_mod_rem_entry_classes().contains(n))
+    }
+}
+pub open spec fn related_modify_ok(state: Seq<AccessControlModify>, ident: &Identity, r: &AccessControlModifyResolved) -> bool {
+    exists|i: int| 0 <= i < state.len() && *r.acp == #[trigger] state[i] && conditions_resolved(ident, &state[i].acp.receiver, &state[i].acp.target, r.receiver_condition, r.target_condition)
+}
+// a related (resolved) profile that applies to the entry is a profile of the state matching the user and the entry
+pub proof fn lemma_related_applies(st: Seq<AccessControlModify>, r: &AccessControlModifyResolved, i: &Identity, e: &EntrySealedCommitted)
+    requires related_modify_ok(st, i, r), modify_acp_applies(r, i, e)
+    ensures exists|j: int| 0 <= j < st.len() && *r.acp == #[trigger] st[j] && modify_profile_matches(&st[j].acp, i, e)
+{
+    let j = choose|j: int| 0 <= j < st.len() && *r.acp == #[trigger] st[j] && conditions_resolved(i, &st[j].acp.receiver, &st[j].acp.target, r.receiver_condition, r.target_condition);
+    assert(modify_profile_matches(&st[j].acp, i, e));
+}
+pub proof fn lemma_modify_lift(st: Seq<AccessControlModify>, acps: Seq<AccessControlModifyResolved>, i: &Identity, e: &EntrySealedCommitted, ml: Seq<Modify>)
+    requires forall|k: int| 0 <= k < acps.len() ==> related_modify_ok(st, i, &#[trigger] acps[k])
+    ensures modify_fully_granted(acps, i, e, ml) ==> modify_stmt_granted(st, i, e, ml)
+{
+    assert forall|x: Attribute| granted_pres(acps, i, e, x) implies sgranted_pres(st, i, e, x) by {
+        let k = choose|k: int| 0 <= k < acps.len() && modify_acp_applies(#[trigger] &acps[k], i, e) && lists_pres(acps[k].acp, x);
+        lemma_related_applies(st, &acps[k], i, e);
+    }
+    assert forall|x: Attribute| granted_rem(acps, i, e, x) implies sgranted_rem(st, i, e, x) by {
+        let k = choose|k: int| 0 <= k < acps.len() && modify_acp_applies(#[trigger] &acps[k], i, e) && lists_rem(acps[k].acp, x);
+        lemma_related_applies(st, &acps[k], i, e);
+    }
+    assert forall|c: String| granted_pres_cls(acps, i, e, c) implies sgranted_pres_cls(st, i, e, c) by {
+        let k = choose|k: int| 0 <= k < acps.len() && modify_acp_applies(#[trigger] &acps[k], i, e) && lists_pres_cls(acps[k].acp, c);
+        lemma_related_applies(st, &acps[k], i, e);
+    }
+    assert forall|c: String| granted_rem_cls(acps, i, e, c) implies sgranted_rem_cls(st, i, e, c) by {
+        let k = choose|k: int| 0 <= k < acps.len() && modify_acp_applies(#[trigger] &acps[k], i, e) && lists_rem_cls(acps[k].acp, c);
+        lemma_related_applies(st, &acps[k], i, e);
+    }
+}
+//@extract related_modify_step
+#[verifier::external_body] pub fn kvx_related_modify<'b>(state: &'b Vec<AccessControlModify>, ident: &Identity, ident_memberof: Option<&BTreeSet<Uuid>>, cache: &mut ResolveFilterCacheReadTxn<'_>) -> (r: Vec<AccessControlModifyResolved<'b>>)
+    requires ident_memberof is Some == ident.memberof() is Some, ident_memberof matches Some(m) ==> m@ == ident.memberof()->Some_0
+    ensures forall|k: int| 0 <= k < r@.len() ==> related_modify_ok(state@, ident, &#[trigger] r@[k]) { unimplemented!() }
+pub struct AcpTxn<'a> { pub sync: HashMap<Uuid, BTreeSet<Attribute>>, pub modify: Vec<AccessControlModify>, pub cache: &'a u8 }
+impl<'a> AcpTxn<'a> {
     pub fn get_sync_agreements(&self) -> (r: &HashMap<Uuid, BTreeSet<Attribute>>) { &self.sync }
+    pub fn get_modify(&self) -> (r: &Vec<AccessControlModify>) ensures *r == self.modify { &self.modify }
+    #[verifier::external_body] pub fn get_acp_resolve_filter_cache(&self) -> (r: &mut ResolveFilterCacheReadTxn<'a>) { unimplemented!() }
 //@extract modify_allow_operation_per_entry
+//@extract modify_related_acp
+//@extract modify_allow_operation
+//@extract batch_modify_allow_operation
 }
 }
 fn main(){}
